@@ -48,21 +48,27 @@ IsC(T) == T.t \in {"os", "ret", "fn", "codata"}
 (*   O = data | +N : Unit | +J : Int64 * Int64 | +K : B end                 *)
 (*   S = codata | .fst : Ret Int64 | .snd : Int64 -> Ret Int64 end          *)
 (*   P = codata | .run : OS | .get : Ret B end                              *)
+(*   B1 = data | +T : Unit end        S1 = codata | .fst : Ret Int64 end    *)
+(* B1 and S1 are strict sub-signatures of B and S: structural equality     *)
+(* must compare the NUMBER of arms, not only the arms of one side.         *)
 DataArms(n) ==
   CASE n = "B" -> <<[c |-> "T", a |-> TUnit], [c |-> "F", a |-> TInt]>>
     [] n = "O" -> <<[c |-> "N", a |-> TUnit], [c |-> "J", a |-> Pair(TInt, TInt)],
                     [c |-> "K", a |-> Data("B")]>>
+    [] n = "B1" -> <<[c |-> "T", a |-> TUnit]>>                 \* a strict sub-signature of B
     [] OTHER -> << >>
 CoArms(n) ==
   CASE n = "S" -> <<[d |-> "fst", c |-> Ret(TInt)], [d |-> "snd", c |-> Fn(TInt, Ret(TInt))]>>
     [] n = "P" -> <<[d |-> "run", c |-> OS], [d |-> "get", c |-> Ret(Data("B"))]>>
+    [] n = "S1" -> <<[d |-> "fst", c |-> Ret(TInt)]>>            \* a strict sub-signature of S
     [] OTHER -> << >>
-DataNames == {"B", "O"}
-CoNames   == {"S", "P"}
+DataNames == {"B", "O", "B1"}
+CoNames   == {"S", "P", "S1"}
 
 NamedTy(nm) ==
   CASE nm = "int" -> TInt [] nm = "unit" -> TUnit [] nm = "str" -> TStr
-    [] nm = "B" -> Data("B") [] nm = "O" -> Data("O")
+    [] nm = "B" -> Data("B") [] nm = "O" -> Data("O") [] nm = "B1" -> Data("B1")
+    [] nm = "tS1" -> Thk(CoData("S1"))
     [] nm = "pii" -> Pair(TInt, TInt)
     [] nm = "pib" -> Pair(TInt, Data("B"))
     [] nm = "tS" -> Thk(CoData("S")) [] nm = "tP" -> Thk(CoData("P"))
@@ -263,7 +269,8 @@ GenCompu(ty, ctx, G(_, _)) ==
 
 (* Single-fault productions.  The verdict of a faulty program is NOT       *)
 (* assumed: it is recomputed by TyOf, the fault only steers generation.    *)
-FaultTys == {TInt, TUnit, Thk(OS), Ret(TInt), Fn(TInt, Ret(TInt)), Data("B"), Pair(TInt, TInt), TKind}
+FaultTys == {TInt, TUnit, Thk(OS), Ret(TInt), Fn(TInt, Ret(TInt)), Data("B"), Pair(TInt, TInt), TKind,
+             Data("B1"), Thk(CoData("S1")), Thk(CoData("S"))}
 GenFault(o) ==
   LET ty == o.ty ctx == o.ctx IN
   \* a term of another type (covers: wrong argument / annotation / branch type, elimination at
